@@ -9,6 +9,7 @@ import (
 
 	"github.com/dominant-strategies/go-quai/common"
 	"github.com/dominant-strategies/go-quai/core/types"
+	"github.com/dominant-strategies/go-quai/crypto"
 	"github.com/dominant-strategies/go-quai/p2p/pb"
 	"google.golang.org/protobuf/proto"
 	"pgregory.net/rapid"
@@ -54,6 +55,34 @@ func safely[R any](f func() (R, error)) (r R, err error, panicked bool) {
 	}()
 	r, err = f()
 	return
+}
+
+// badQiPubKey reports whether one of txs is a Qi transaction with an input key that is not a curve
+// point (TxIn.ProtoDecode passes a 65-byte key through unchecked, TxIn.ProtoEncode refuses it):
+// the recorded finding fpFuzzQiBadPubKey, whatever object carries the transaction.
+func badQiPubKey(txs []*types.Transaction) bool {
+	for _, tx := range txs {
+		if tx == nil || tx.Type() != types.QiTxType {
+			continue
+		}
+		for _, in := range tx.TxIn() {
+			if _, err := crypto.UnmarshalPubkey(in.PubKey); err != nil {
+				return true
+			}
+		}
+	}
+	return false
+}
+
+func woTxs(y *types.WorkObject) []*types.Transaction {
+	if y == nil || y.Body() == nil {
+		return nil
+	}
+	out := append([]*types.Transaction{}, y.Body().Transactions()...)
+	if y.Tx() != nil {
+		out = append(out, y.Tx())
+	}
+	return out
 }
 
 // redecodeFP names the root cause of an undecodable re-encoding where it is recognisable.
@@ -220,6 +249,9 @@ func woCodec(view types.WorkObjectView) codec[*types.WorkObject] {
 				// the decoder treats the body header as optional, the encoder does not
 				return "C14/fuzz/headerless-body-not-reencodable"
 			}
+			if err != nil && strings.Contains(err.Error(), "invalid secp256k1 public key") && badQiPubKey(woTxs(y)) {
+				return fpFuzzQiBadPubKey // the same transaction-level finding, carried inside a work object
+			}
 			return ""
 		}}
 }
@@ -340,6 +372,24 @@ var codecQuaiMessage = codec[*p2pResp]{target: "quaimessage",
 	fp: func(r *p2pResp, err error) string {
 		if err != nil && strings.Contains(err.Error(), "header to be proto encoded is nil") {
 			return "C14/fuzz/headerless-body-not-reencodable"
+		}
+		if err != nil && strings.Contains(err.Error(), "invalid secp256k1 public key") {
+			var txs []*types.Transaction
+			switch d := r.data.(type) {
+			case *types.WorkObjectBlockView:
+				txs = woTxs(d.WorkObject)
+			case *types.WorkObjectHeaderView:
+				txs = woTxs(d.WorkObject)
+			case []*types.WorkObjectBlockView:
+				for _, b := range d {
+					if b != nil {
+						txs = append(txs, woTxs(b.WorkObject)...)
+					}
+				}
+			}
+			if badQiPubKey(txs) {
+				return fpFuzzQiBadPubKey
+			}
 		}
 		return ""
 	}}
